@@ -489,7 +489,8 @@ def parseCombinator (P : PEnv) (t : Token) (s : LS) (isPseudo isForgive : Bool) 
     let sel := sel.addRelations s.relations
     .ok { s with selectors := s.selectors ++ [sel], relations := [], sel := .empty, hasSelector := false }
   else
-    let sel := (s.sel.addRelations s.relations).setRelType (combRel c)
+    let sel := if s.sel.tag.isNone && !isPseudo then s.sel.setTag ⟨[42], none⟩ else s.sel
+    let sel := (sel.addRelations s.relations).setRelType (combRel c)
     .ok { s with relations := [sel], sel := .empty, hasSelector := false }
 
 mutual
